@@ -25,6 +25,8 @@ Require Import V.Proofs.C02SeqTerm.
 Require Import V.Proofs.C02Solo.
 Require Import V.Proofs.C02Collapse.
 Require Import V.Proofs.C02CollapseRun.
+Require Import V.Oracle.C02SoloOracle.
+Require Import V.Proofs.C02SoloOracleProofs.
 Require Import V.Proofs.C02Example.
 Open Scope Z_scope.
 
@@ -294,3 +296,12 @@ Proof. destruct ex_solo as (s' & l' & H & Hd & Hr).
   destruct (C02_collapse ex_solo_cfg ex_solo_wf ltac:(vm_compute; discriminate) Debug 0%nat ex_solo_msgs 5%nat 4096 s' l') as (lg' & E & M & _); try assumption.
   { intros msg Hin. unfold ex_solo_msgs in Hin. repeat (destruct Hin as [<- | Hin]; [vm_compute; reflexivity|]). destruct Hin. }
   exists s', l', lg'. rewrite Hr in E. auto. Qed.
+
+(* the collapse check evaluated on single-publisher cases (Oracle/C02SoloOracle.v: the implementation's results and dump equal
+   those of the SEQUENTIAL model folded over the message list) is true on every complete solo run of the thread model *)
+Theorem C02_solo_oracle : forall c, wf_cfg c -> c_mtu c <= 268435456 -> forall m t msgs budget limit s' l' trt,
+  (forall msg, In msg msgs -> FragArith.zlen msg < two31) ->
+  ssteps c t (init_shared c limit) (p_start msgs budget []) s' l' -> p_pc l' = PDone ->
+  solo_ok m c msgs budget limit (trt, [(Done, p_res l')], dump c s', @nil (Z * Z * Z * Z * list Z)) = true.
+Proof. exact solo_oracle_model. Qed.
+Print Assumptions C02_solo_oracle.
